@@ -29,6 +29,12 @@ with a shrunk failing input, implementation != specification):
   7 cosineindex.py query_weight returns the sum instead of its square root
   8 okapiindex.py (Python loop) K1_plus1 = K1 + 1.1
   9 okapiindex.py reindex_doc no longer adds the new length (D19 re-introduced)
+Reads must not change what later reads see (cfg cutoff, repeated one-word reads): the cosine back end hands the STORED
+IFBTree of a word in more than DICT_CUTOFF documents to the set operations uncopied.  Seeded change C08_F (setops._trivial
+scales its single operand in place) was missed before and is caught now; two more of the class, both VIOLATION on quick
+seed 0 here and in C20, both missed by the generators before:
+  10 setops.mass_weightedIntersection scales a single operand in place (reached only by a one-id search_phrase)
+  11 baseindex.search_glob scales the map in place when the glob matches a single word
 """
 import importlib.util
 import math
@@ -254,8 +260,18 @@ def gen(rng, tier, idx):
     ids = list(range(1, 9)) + ([2 ** 31 - 1, -5] if fam == 32 else [2 ** 40, -5])
     ndocs = rng.choice([2, 3, 4, 5, 6, 8, 12, 16])
     bigcase = rng.random() < (0.08 if tier == "quick" else 0.12)
+    # DICT_CUTOFF (a word's docid -> weight map is a dict up to that many documents, the STORED IFBTree beyond) is
+    # instance-settable: 2 or 3 make the stored-tree representation the common one; with the default (10) a fifth
+    # of the corpora get a word that more than ten documents contain
+    cutoff = rng.choice([None, None, 2, 2, 3, 3])
+    common = None
+    if cutoff is None and rng.random() < 0.3:
+        ndocs = rng.choice([12, 13, 16])
+        common = rng.choice(vocab)
     if ndocs > len(ids):
         ids = ids + list(range(100, 100 + ndocs))
+    if common is not None:
+        ids = ids[:ndocs + 1]           # few collisions: the common word reaches more than ten documents
     cmds = []
     table = {}
     lexn = [0]
@@ -272,9 +288,14 @@ def gen(rng, tier, idx):
         for _ in range(nops):
             r = rng.random()
             known = list(table)
-            if r < 0.55 or not known:
+            if r < (0.55 if common is None or len(table) > 11 else 0.92) or not known:
                 d = rng.choice(ids)
+                if common is not None and rng.random() < 0.7:
+                    fresh = [x for x in ids if x not in table]
+                    d = rng.choice(fresh) if fresh else d
                 ws = gen_doc(rng, vocab, bigcase and rng.random() < 0.4)
+                if common is not None and common not in ws and rng.random() < 0.9:
+                    ws.insert(rng.randrange(len(ws) + 1), common)
                 cmds.append(["index", d] + ws)
                 table[d] = ws
             elif r < 0.75:
@@ -388,6 +409,60 @@ def gen(rng, tier, idx):
             else:
                 cmds.append(["search", new_term(atom_wids())])
 
+    def frequent_word():
+        """the word most documents contain (beyond the cut-off: its stored map is an IFBTree)"""
+        df = {}
+        for ws in table.values():
+            for w in set(ws):
+                df[w] = df.get(w, 0) + 1
+        if not df:
+            return rng.choice(vocab)
+        top = max(df.values())
+        return rng.choice(sorted(w for w, n in df.items() if n == top))
+
+    def one_word_read(w):
+        """one read whose only operand is word w: search / one-word phrase / glob with a single match / apply"""
+        r = rng.random()
+        if impl == "text" and r < 0.35:
+            r2 = rng.random()
+            if r2 < 0.6:
+                return [["apply", "a", new_term([w])]]
+            if r2 < 0.75:
+                parts = [new_term([w]), new_term([])]          # the word and a stop word: a one-id phrase
+                if rng.random() < 0.5:
+                    parts.reverse()
+                lexn[0] += 1
+                pid = lexn[0]
+                terms[pid] = [w]
+                cmds.append(["lexp", pid, "_".join("t%d" % i for i in parts), w])
+                return [["apply"] + tree_tokens(("p", pid, parts))]
+            gid = new_term([w])
+            cmds.append(["lex", "g", gid, w])
+            return [["apply", "g", gid]]
+        if r < 0.65:
+            return [["search", new_term([w])]]
+        if r < 0.8:
+            return [["phrase", new_term([w])]]
+        gid = new_term([])
+        cmds.append(["lex", "g", gid, w])
+        return [["glob", gid]]
+
+    def repeated_reads():
+        """the SAME one-word read before and after other reads of the unchanged corpus (a read that scales the
+        stored weights in place answers correctly once: seeded change C08_F)"""
+        w = frequent_word() if rng.random() < 0.8 else hot_word()
+        first = one_word_read(w)
+        cmds.extend([list(c) for c in first])
+        for _ in range(rng.choice([1, 1, 2])):
+            r = rng.random()
+            if r < 0.4:
+                queries(1)
+            elif r < 0.7:
+                cmds.extend(one_word_read(w))          # the same word through another entry point
+            cmds.extend([list(c) for c in first])
+        if rng.random() < 0.3:
+            cmds.append(["qw", new_term([w])])
+
     def swap_history():
         """term frequencies change, the number of documents and of distinct words does not"""
         for _ in range(rng.randrange(1, 3)):
@@ -410,6 +485,8 @@ def gen(rng, tier, idx):
     history(ndocs + rng.randrange(0, 4))
     first = len(cmds)
     queries(rng.randrange(2, 6))
+    if rng.random() < 0.6:
+        repeated_reads()
     for _ in range(rng.choice([0, 1, 1, 2])):
         asked = [c for c in cmds[first:] if c[0] in ("search", "phrase", "glob", "qw", "apply")]
         if rng.random() < 0.4:
@@ -420,6 +497,8 @@ def gen(rng, tier, idx):
         for c in rng.sample(asked, min(len(asked), rng.randrange(0, 3))):
             cmds.append(list(c))
         queries(rng.randrange(1, 4))
+        if rng.random() < 0.35:
+            repeated_reads()
     if kind == "okapi" and rng.random() < 0.3:
         n = rng.randrange(1, 6)
         tr = []
@@ -427,8 +506,10 @@ def gen(rng, tier, idx):
             tr += [d, rng.choice([1, 2, 3, 17, 300]), rng.choice([0, 1, 5, 40, 3000])]
         cmds.append(["okascore", rng.choice([0.2876820724517809, 1.0, 2.5, 13.8]),
                      rng.choice([0.5, 1.0, 7.25, 421.0])] + tr)
-    return {"session": "score", "cfg": [["cfg", "kind", kind], ["cfg", "impl", impl], ["cfg", "fam", fam]],
-            "cmds": cmds}
+    cfg = [["cfg", "kind", kind], ["cfg", "impl", impl], ["cfg", "fam", fam]]
+    if cutoff:
+        cfg.append(["cfg", "cutoff", cutoff])
+    return {"session": "score", "cfg": cfg, "cmds": cmds}
 
 
 # ----------------------------------------------------------------------------
@@ -493,6 +574,8 @@ def impl_run(hyp, case):
         inner = _PURE.OkapiIndex(lex, family=fam)
     else:
         inner = okapiindex.OkapiIndex(lex, family=fam)
+    if cfg.get("cutoff"):
+        inner.DICT_CUTOFF = int(cfg["cutoff"])      # instance attribute: survives reset(), read by _add_wordinfo
     ti = TextIndex("text", lexicon=lex, index=inner, family=fam) if cfg["impl"] == "text" else None
     outs = []
     for c in case["cmds"]:
@@ -627,10 +710,15 @@ def features(case, outs):
     scored = False
     maxtf = 0
     maxlen = 0
+    cutoff = int(cfg.get("cutoff") or 10)
+    f.append("cutoff:%s" % (cfg.get("cutoff") or "default"))
+    read = {}          # (entry point, word id) -> times read since the last write
     for i, c, table, terms, globs in replay_tables(case):
         op = c[0]
         o = outs[i]
         f.append("op:" + op)
+        if op in ("index", "reindex", "unindex", "reset"):
+            read = {}
         if o.startswith("err"):
             f.append(op + ":" + o.replace(" ", "-"))
         if op == "index":
@@ -655,10 +743,26 @@ def features(case, outs):
                 scored = True
                 if visible(table, w):
                     vis = True
-                if any(len(v) > 10 for v in [[d for d, ws in table.items() if x in ws] for x in set(w)]):
+                df = {x: sum(1 for ws in table.values() if x in ws) for x in set(w)}
+                if any(n > 10 for n in df.values()):
                     f.append("wordinfo-is-btree(>10 docs)")
+                if any(n > cutoff for n in df.values()):
+                    f.append("wordinfo-is-btree(>cutoff docs)")
+                live = [x for x in w if df.get(x)]
+                if len(live) == 1 and len(w) == 1 and (op != "apply" or (c[1] in ("a", "g", "p") and len(c) <= 4)):
+                    key = (op if op != "apply" else "apply-" + c[1], live[0])
+                    read[key] = read.get(key, 0) + 1
+                    tree = "stored-tree" if df[live[0]] > cutoff else "dict"
+                    if read[key] >= 2:
+                        f.append("repeat:same-one-word-%s-again:%s:%s" % (key[0], tree, cfg["kind"]))
+                        f.append("repeat:same-one-word-read-again:%s:%s" % (tree, cfg["kind"]))
+                    elif any(k[1] == live[0] and k != key for k in read):
+                        f.append("repeat:one-word-read-after-other-entry-point:%s:%s" % (tree, cfg["kind"]))
             if len(w) != len(set(w)):
                 f.append(op + ":repeated-wid")
+    for k in sorted(set(f)):
+        if k.startswith(("repeat:same-one-word-read-again", "wordinfo-is-btree")):
+            f.append("case:" + k)
     if scored:
         f.append("corpus:scored")
         f.append("corpus:nontrivial(tf>1,len!=mean)" if vis else "corpus:k1-b-invisible")
@@ -689,7 +793,13 @@ RULE = ("a corpus = a history of 2-20 index_doc (new and existing ids), direct r
         "and for TextIndex apply() of generated AND/OR/NOT/phrase/glob trees rendered to query strings "
         "(the parse is checked against the generated tree); Okapi via the rebuilt C extension, via the "
         "PURE_PYTHON loop, via TextIndex; cosine directly and via TextIndex; okascore.score called directly "
-        "with tf up to 300 and lengths up to 3000; both families. A corpus is non-trivial if a scored "
+        "with tf up to 300 and lengths up to 3000; both families; DICT_CUTOFF set on the instance to 2 / 3 / left at "
+        "10 (a third each; with 10, 30% of the corpora get 12-16 documents sharing one word), and after 60% of the "
+        "first query rounds (35% of the later ones) the SAME one-word read (search / one-id phrase / glob with a "
+        "single match / apply of an atom, glob or word+stop-word phrase) on the most frequent word is issued, "
+        "followed by 1-2 other reads, then again (measured quick seed 0, of 1200 corpora: same one-word read repeated "
+        "on an unchanged corpus 807 on a dict posting + 226 on a stored IFBTree posting, of these 78 cosine; a scored "
+        "query on a word beyond the cut-off 326, beyond 10 documents 52). A corpus is non-trivial if a scored "
         "document has tf > 1 for a query word and len != mean")
 LEVEL_TEXT = ("Lean 4 theorems over the reals: for every document table and every list of query word ids the "
               "modelled search / search_glob / search_phrase of OkapiIndex and CosineIndex (per-term maps, "
